@@ -3,7 +3,7 @@
    correspondence (recomputation through the public predict). *)
 From Coq Require Import List Arith QArith Qcanon.
 Import ListNotations.
-From PS Require Import Recon.Scores Recon.ScoresProofs.
+From PS Require Import Recon.Scores Recon.ScoresProofs Recon.SSPOR Recon.SSPORProofs.
 Close Scope Qc_scope.
 Open Scope nat_scope.
 
@@ -67,6 +67,24 @@ Theorem C17_optimality_two_modes_nonneg : forall l : list (Qc * Qc), 3 <= length
   (0 <= optimality (map (fun p => [fst p; snd p]) l))%Qc.
 Proof. exact optimality_two_modes_nonneg. Qed.
 Print Assumptions C17_optimality_two_modes_nonneg.
+
+(* reconstruction_error (like score and predict) is an observer of the SSPOR machine: one call returns the state it was
+   given, whether it succeeds or raises ... *)
+Theorem C17_error_curve_changes_nothing : forall s s' e, step s Observe = (s', e) -> s' = s.
+Proof. exact observe_noop. Qed.
+Print Assumptions C17_error_curve_changes_nothing.
+
+(* ... and in EVERY history of fits, setter calls, mode updates and observers the final model - basis matrix, ranking,
+   sensor count in force - is the one reached by the same history with the observers left out *)
+Theorem C17_observers_leave_no_trace : forall h s, fst (run s h) = fst (run s (filter (fun o => negb (is_observe o)) h)).
+Proof. exact observers_leave_no_trace. Qed.
+Print Assumptions C17_observers_leave_no_trace.
+
+Example C17_observers_example :
+  exists s0 s1, ctor Identity (Some 2) OQR (VInt 3) = inl s0 /\
+    run s0 [Observe; Fit dB None; Observe; SetN (VInt 2); Observe] = (s1, [Some NotFittedError; None; None; None; None]) /\
+    n_sensors s1 = Some 2 /\ run s0 [Fit dB None; SetN (VInt 2)] = (s1, [None; None]).
+Proof. eexists. eexists. split; [reflexivity|]. split; [vm_compute; reflexivity|]. split; vm_compute; reflexivity. Qed.
 
 Example C17_example :
   mse [[q 1 1; q 2 1]; [q 3 1; q 4 1]] [[q 1 1; q 0 1]; [q 3 1; q 2 1]] = q 2 1 /\
